@@ -175,12 +175,10 @@ class TorchBackend(BaseBackend):
         ``t0`` (review §4.1) — the first stored sample landed at
         ``state_rec[t0, :]`` instead of ``state_rec[0, :]``.
 
-        DDE history updates from :code:`BaseBackend._solve_euler` are not
-        replicated here because :class:`DDEHistory.update` calls
-        :code:`y.copy()`, which is not a method on torch tensors.  A
-        tensor-native DDE+Euler path would need its own ring buffer; until
-        then DDE simulation on the torch backend should use ``solver='scipy'``
-        (see :meth:`_solve_scipy_dde` below).
+        As in :code:`BaseBackend._solve_euler` the history of a delay
+        differential equation is extended after every step (the state is
+        handed to :class:`DDEHistory` as a numpy array, which copies it into
+        its row buffer).
         """
         # preparations for fixed step-size integration
         idx = 0
@@ -195,6 +193,8 @@ class TorchBackend(BaseBackend):
         # iteration counter `i` rather than the wall-clock step number — see
         # BaseBackend._solve_euler for the rationale (review §4.2).
         t0_int = int(t0)
+        from ..base.base_backend import DDEHistory
+        has_dde = len(args) > 0 and isinstance(args[0], DDEHistory)
         for i in range(steps):
             if i % store_step == 0:
                 state_rec[idx, :] = y
@@ -202,5 +202,7 @@ class TorchBackend(BaseBackend):
             step = i + t0_int
             rhs = func(step, y, *args)
             y += dt * rhs
+            if has_dde:
+                args[0].update((i + 1) * dt, y.detach().numpy())
 
         return state_rec.numpy()
